@@ -552,6 +552,183 @@ def replay_obj(what, mod_files, meta, runs, extra=None):
     return o
 
 
+# --------------------------------------------------------------------------- fixed corpus of real modules
+FIXED = os.path.join(CORPUS, "fixed")
+OVERLAP_RUNS = 14          # cold-cache repetitions of the module with overlapping directives
+MANY_SWEEP = [(4, 0), (8, 0), (16, 0), (8, 101), (16, 102), (12, 0), (16, 0), (8, 0), (3, 103), (16, 104)]
+
+
+def load_fixed(name):
+    root = os.path.join(FIXED, name)
+    files = {}
+    for dp, _, fns in os.walk(root):
+        for fn in fns:
+            fp = os.path.join(dp, fn)
+            files[os.path.relpath(fp, root)] = open(fp).read()
+    if "go.mod" not in files:
+        raise vlib.HarnessError("corpus/C06/fixed/%s is incomplete" % name)
+    pk = sorted({os.path.dirname(r) for r in files if r.endswith(".go")})
+    return files, {"packages": pk, "std": False, "broken": False, "fixed_corpus": name}
+
+
+def fixed_corpus(ctx, st, sc, scrace):
+    """Three hand-written modules that do not depend on the seed and run first on every tier:
+    twins    two pairs of packages holding a copied helpers.go (same base name, same lines, same names; one pair
+             byte-identical), every helper used in one package and unused in the other: the problems printed for a
+             package must be the same in every invocation that names it (U1000 is reconciled across packages).
+    overlap  files with > 8 commented nodes in which a //lint:file-ignore and a //lint:ignore cover the same
+             problem (several checks, a list of checks, a glob): OVERLAP_RUNS runs, each with an empty cache (the
+             order of the directives -- the iteration order of a map -- is stored with cached results), must print
+             the same bytes.
+    many     three packages on each of which eight analyzers report 60 problems each: a single-worker run is the
+             reference for a sweep over GOMAXPROCS / yields with empty caches, and for the -race build."""
+    out = {}
+    base_args = ["-f", "json", "-checks", "all", "-tests=false"]
+
+    def prepare(name):
+        files, meta = load_fixed(name)
+        moddir = os.path.dirname(ctx.path("mods", "fixed_" + name, "go.mod"))
+        write_module(moddir, files)
+        return files, meta, moddir
+
+    def runner(name, moddir):
+        def go(cfg):
+            (binary, args, procs, ys, tag) = cfg
+            cache = fresh_cache(ctx, None, "fx_%s_%s" % (name, tag))   # empty: nothing is warm
+            try:
+                return sc_run(ctx, binary, moddir, args, procs, ys, cache, tag="fx" + tag)
+            finally:
+                shutil.rmtree(cache, ignore_errors=True)
+        return go
+
+    def crashed(name, files, meta, r):
+        if r.rc in (0, 1) and not CRASH.search(r.err):
+            return False
+        st["oracle_failures"] += 1
+        what = "the run did not terminate (deadlock)" if r.rc == -9 else "the linter crashed / failed on a module of the fixed corpus"
+        ctx.violation("crash_fixed_%s.json" % name, replay_obj(what, files, meta, [r.cfg], {"rc": r.rc, "stderr": r.err[-3000:]}),
+                      text="C06: %s: corpus/C06/fixed/%s, run %s: %s" % (what, name, r.cfg, r.err[-300:]))
+        return True
+
+    # ---- twins: pattern subsets
+    files, meta, moddir = prepare("twins")
+    pats = [["./..."], ["./a"], ["./b"], ["./a", "./b"], ["./b", "./a"], ["./x/util"], ["./y/util"], ["./x/util", "./y/util"],
+            ["./y/util", "./x/util"], ["./a", "./y/util"], ["./b", "./x/util", "./a"]]
+    procs = [4, 1, 1, 2, 8, 1, 1, 4, 16, 2, 3]
+    cfgs = [(sc, base_args + pt, procs[k], 0, "t%d" % k) for k, pt in enumerate(pats)]
+    with ThreadPoolExecutor(max_workers=WORKERS) as ex:
+        res = list(ex.map(runner("twins", moddir), cfgs))
+    st["runs"] += len(res)
+    full = None
+    twins_bad = 0
+    if not any(crashed("twins", files, meta, r) for r in res):
+        full, _ = by_package(res[0].out, moddir, meta["packages"])
+        for cfg, r in zip(cfgs[1:], res[1:]):
+            st["evaluations"] += 1
+            named = [a[2:] for a in cfg[1] if a.startswith("./")]
+            got, other = by_package(r.out, moddir, meta["packages"])
+            bad = [p for p in named if got[p] != full[p]]
+            extra = [p for p in meta["packages"] if p not in named and got[p]]
+            if bad or extra or other:
+                twins_bad += 1
+                st["oracle_failures"] += 1
+                p = (bad + extra)[0] if bad or extra else None
+                ctx.violation("subset_fixed_twins_%s.json" % cfg[4], replay_obj(
+                    "the problems reported for a package depend on which other packages are named", files, meta, [res[0].cfg, r.cfg], {
+                        "package": p, "problems_in_full_run": full.get(p), "problems_in_subset_run": got.get(p), "rc": r.rc,
+                        "unexpected_lines": other[:5], "stderr_2": r.err[-2000:]}),
+                    text="C06: problems of package %s differ between `staticcheck ./...` (%d) and `staticcheck %s` (%d) in corpus/C06/fixed/twins: "
+                         "full run %s, this run %s" % (p, len(full.get(p) or []), " ".join(named and cfg[1][len(base_args):]), len(got.get(p) or []),
+                                                        [json.loads(l)["message"] for l in (full.get(p) or [])][:4],
+                                                        [json.loads(l)["message"] for l in (got.get(p) or [])][:4]))
+        # non-vacuity of the input: each twin really has helpers that only it leaves unused
+        unused = {p: sorted(json.loads(l)["message"] for l in full[p] if json.loads(l)["code"] == "U1000") for p in meta["packages"]}
+        out["twins_unused"] = {p: len(v) for p, v in unused.items()}
+        if not (unused.get("a") and unused.get("b") and unused.get("y/util")) or unused.get("a") == unused.get("b"):
+            ctx.notes.append("fixed corpus twins: the expected U1000 problems are not all there (%s); the subset oracle is weaker than intended" % unused)
+    out["twins_invocations"] = len(pats)
+
+    # ---- overlap: repetition with empty caches
+    files, meta, moddir = prepare("overlap")
+    cyc = [1, 2, 3, 4, 8, 16]
+    cfgs = [(sc, base_args + ["./..."], cyc[k % len(cyc)], 0, "v%d" % k) for k in range(OVERLAP_RUNS)]
+    with ThreadPoolExecutor(max_workers=WORKERS) as ex:
+        res = list(ex.map(runner("overlap", moddir), cfgs))
+    st["runs"] += len(res)
+    if not any(crashed("overlap", files, meta, r) for r in res):
+        outs = {}
+        for r in res:
+            outs.setdefault((r.rc, r.out), []).append(r)
+        st["evaluations"] += len(res) - 1
+        out["overlap_distinct_outputs"] = len(outs)
+        if len(outs) > 1:
+            st["oracle_failures"] += 1
+            groups = sorted(outs.values(), key=lambda g: -len(g))
+            a, b = groups[0][0], groups[1][0]
+            ctx.violation("nondet_fixed_overlap.json", replay_obj(
+                "output differs between two runs on the same input (GOMAXPROCS / yields / pattern order / repetition)", files, meta, [a.cfg, b.cfg], {
+                    "rc": [a.rc, b.rc], "first_difference": first_diff(a.out, b.out), "distinct_outputs": len(outs),
+                    "runs_per_output": [len(g) for g in groups], "stdout_1": a.out, "stdout_2": b.out,
+                    "note": "each run starts from an empty cache; the difference may need several repetitions to show (map iteration order)"}),
+                text="C06: %d different outputs in %d cold-cache runs of `staticcheck %s` on corpus/C06/fixed/overlap (%s): %s"
+                     % (len(outs), len(res), " ".join(a.cfg["args"]), [len(g) for g in groups], first_diff(a.out, b.out)))
+        elif res[0].out.strip():
+            ctx.notes.append("fixed corpus overlap: every directive matches, yet problems are printed: %s" % res[0].out[:300])
+    out["overlap_runs"] = OVERLAP_RUNS
+
+    # ---- many: GOMAXPROCS sweep against a single worker, -race build
+    files, meta, moddir = prepare("many")
+    go = runner("many", moddir)
+    ref = go((sc, base_args + ["./..."], 1, 0, "ref"))
+    st["runs"] += 1
+    if not crashed("many", files, meta, ref):
+        per_code = {}
+        for ln in ref.out.splitlines():
+            c = json.loads(ln)["code"]
+            per_code[c] = per_code.get(c, 0) + 1
+        out["many_problems_per_check"] = per_code
+        if len([c for c, k in per_code.items() if k >= 100]) < 4:
+            ctx.notes.append("fixed corpus many: fewer than 4 checks report >= 100 problems (%s)" % per_code)
+        cfgs = [(sc, base_args + ["./..."], pr, ys, "g%d" % k) for k, (pr, ys) in enumerate(MANY_SWEEP)]
+        with ThreadPoolExecutor(max_workers=3) as ex:
+            res = list(ex.map(go, cfgs))
+        reported = 0
+        for cfg, r in zip(cfgs, res):
+            st["runs"] += 1
+            st["evaluations"] += 1
+            if crashed("many", files, meta, r):
+                continue
+            if (r.rc, r.out) != (ref.rc, ref.out):
+                st["oracle_failures"] += 1
+                reported += 1
+                if reported > 2:
+                    continue
+                ctx.violation("nondet_fixed_many_%s.json" % cfg[4], replay_obj(
+                    "output differs between two runs on the same input (GOMAXPROCS / yields / pattern order / repetition)", files, meta, [ref.cfg, r.cfg], {
+                        "rc": [ref.rc, r.rc], "lines": [len(ref.out.splitlines()), len(r.out.splitlines())],
+                        "first_difference": first_diff(ref.out, r.out), "stderr_2": r.err[-2000:]}),
+                    text="C06: `staticcheck ./...` on corpus/C06/fixed/many prints %d problems with GOMAXPROCS=1 and %d with GOMAXPROCS=%d yield=%d "
+                         "(empty caches): %s" % (len(ref.out.splitlines()), len(r.out.splitlines()), cfg[2], cfg[3], first_diff(ref.out, r.out)))
+        if scrace:
+            r = go((scrace, base_args + ["./..."], 8, 0, "race"))
+            st["runs"] += 1
+            st["race_runs"] += 1
+            st["evaluations"] += 1
+            if "WARNING: DATA RACE" in r.err or r.rc == 66:
+                st["oracle_failures"] += 1
+                ctx.violation("race_fixed_many.json", replay_obj("the race detector reports a data race", files, meta, [r.cfg], {
+                    "build": "go build -race -tags verif ./cmd/staticcheck", "report": r.err[:6000]}),
+                    text="C06: data race reported on corpus/C06/fixed/many (%s): %s" % (r.cfg, r.err[:600]))
+            elif not crashed("many", files, meta, r) and (r.rc, r.out) != (ref.rc, ref.out):
+                st["oracle_failures"] += 1
+                ctx.violation("nondet_race_fixed_many.json", replay_obj(
+                    "output of the -race build differs from the baseline", files, meta, [ref.cfg, r.cfg], {
+                        "rc": [ref.rc, r.rc], "first_difference": first_diff(ref.out, r.out), "stderr_2": r.err[-2000:]}),
+                    text="C06: -race build output differs on corpus/C06/fixed/many (%s): %s" % (r.cfg, first_diff(ref.out, r.out)))
+    out["many_sweep"] = MANY_SWEEP
+    return out
+
+
 # --------------------------------------------------------------------------- the check
 def explore_module(ctx, st, name, files, meta, sc, scrace, warm, plan):
     """Runs the matrix for one module. st: accumulator dict."""
@@ -804,6 +981,8 @@ def run(ctx):
         corpus_bad = [{"input": c[1], "expected": c[0], "model": g} for c, g in zip(cases, got) if c[0] != g]
     st["corpus_cases"] = len(cases)
     lap("corpus")
+    fixed_stats = fixed_corpus(ctx, st, sc, scrace)
+    lap("fixed corpus of real modules (twins, overlap, many)")
 
     # warm the std facts (only the normal binary analyses std-importing modules); this runs in
     # the background while the modules without std imports are explored
@@ -908,7 +1087,7 @@ def run(ctx):
         "instance_size_histogram": {"<=10": sum(1 for s in sizes if s <= 10), "11-150": sum(1 for s in sizes if 10 < s <= 150),
                                     ">150": sum(1 for s in sizes if s > 150)},
         "baseline_problem_counts": st["baseline_problems"], "problem_codes": st["codes"],
-        "sort_tie": sort_stats, "model_corpus_cases": st["corpus_cases"], "modules": [m[0] for m in mods],
+        "sort_tie": sort_stats, "model_corpus_cases": st["corpus_cases"], "fixed_corpus": fixed_stats, "modules": [m[0] for m in mods],
         "gomaxprocs": [1, 2, 3, 4, 8, 16],
         "traces_validated_against_impl": st["instances"],
         "samples": st["samples"][:3] + [{"module": t[0], "run": t[1], "trace_events": t[2].count("\n")} for t in st["traces"][:3]],
